@@ -377,8 +377,13 @@ def emit_ref(ref: J, omitted_as_empty: bool = False, stack: Optional[str] = None
     return x + "</COMPARAM-REF>"
 
 
-def emit_layers(model: J, omitted_as_empty: bool = False) -> str:
+def emit_layers(model: J, omitted_as_empty: bool = False, split: bool = False) -> Any:
+    """one container document - or, with split, two: the ECU and base variants in a container
+    whose document comes FIRST, their parents in a second one (what a layer inherits must not
+    depend on the order in which the documents were added)"""
     kinds = {l["name"]: l["kind"] for l in model["layers"]}
+    cont_of = {l["name"]: (CONTAINER + "_a_children" if split and l["kind"] in ("ECU-VARIANT", "BASE-VARIANT")
+                           else CONTAINER) for l in model["layers"]}
     out = []
     stack_of = {l["name"]: l.get("stack") for l in model["layers"] if l["kind"] == "PROTOCOL"}
     for l in model["layers"]:
@@ -395,15 +400,25 @@ def emit_layers(model: J, omitted_as_empty: bool = False) -> str:
                 tail += f'<PROT-STACK-SNREF SHORT-NAME={quoteattr(l["stack"])}/>'
         if l["parents"]:
             tail += "<PARENT-REFS>" + "".join(
-                f'<PARENT-REF ID-REF={quoteattr(p)} DOCREF="{CONTAINER}" DOCTYPE="CONTAINER" '
+                f'<PARENT-REF ID-REF={quoteattr(p)} DOCREF="{cont_of[p]}" DOCTYPE="CONTAINER" '
                 f'xsi:type="{REF_TYPE[kinds[p]]}"/>' for p in l["parents"]) + "</PARENT-REFS>"
         out.append({"kind": l["kind"], "name": l["name"], "xml_tail": tail})
-    return odxgen.emit_container({"name": CONTAINER, "id": CONTAINER, "layers": out})
+    if not split or len(set(cont_of.values())) < 2:
+        return odxgen.emit_container({"name": CONTAINER, "id": CONTAINER, "layers": out})
+    docs = []
+    for cname in (CONTAINER + "_a_children", CONTAINER):
+        docs.append(odxgen.emit_container({"name": cname, "id": cname,
+                                           "layers": [o for o in out if cont_of[o["name"]] == cname]}))
+    return docs
 
 
-def emit_all(model: J, omitted_as_empty: bool = False) -> List[str]:
-    return [emit_subset(s) for s in model["subsets"]] + [emit_spec(model)] + \
-        [emit_layers(model, omitted_as_empty)]
+def emit_all(model: J, omitted_as_empty: bool = False, split: bool = False) -> List[str]:
+    layers = emit_layers(model, omitted_as_empty, split)
+    docs = layers if isinstance(layers, list) else [layers]
+    if split:
+        # the children's container first, the comparam documents last
+        return docs + [emit_subset(s) for s in model["subsets"]] + [emit_spec(model)]
+    return [emit_subset(s) for s in model["subsets"]] + [emit_spec(model)] + docs
 
 
 def has_omitted(model: J) -> bool:
